@@ -224,6 +224,51 @@ def main(inp, outp):
                         qm = P6.T @ np.asarray(midd, float) if orient == "TNW" else np.asarray(midd, float)
                         clause("linear V-bar approach: straight line at constant speed", abs(qm[0]) <= 1e-6 * abs(Dst) and abs(qm[1] - (-100 + Dst / 2)) <= 1e-6 * abs(Dst)
                                and abs(qm[4] - np.sign(Dst) * 0.05) <= 1e-9, "cw/helper-vbar", f"{orient} mid {qm}", {"orientation": orient, "D": Dst})
+    # ---- physical meaning: the Hill state is the relative motion of two Keplerian orbits about a circular target, to second order in
+    #      the separation (axes: Q radial outwards, S along the velocity, W along the angular momentum; TNW = (S, -Q, W))
+    from beyond.orbits import Orbit as _Orbit
+    from beyond.constants import Earth as _Earth
+    for sma in job["smas"][:2]:
+        nn = np.sqrt(_Earth.mu / sma ** 3)
+        tgt = _Orbit([sma, 0.0, 0.9, 1.0, 0.0, 0.3], EPOCH, "keplerian", "EME2000", "Kepler")
+        for orient in ("QSW", "TNW"):
+            prop = ClohessyWiltshire(sma, frame=HillFrame(orientation=orient))
+            for dq in ([120.0, -300.0, 80.0, 0.05, -0.1, 0.07], [-40.0, 500.0, 0.0, 0.0, 0.02, 0.1]):
+                dq = np.array(dq)
+                tc = np.asarray(tgt.copy(form="cartesian"), float)
+
+                def axes(c):
+                    q_ = c[:3] / np.linalg.norm(c[:3])
+                    w_ = np.cross(c[:3], c[3:])
+                    w_ /= np.linalg.norm(w_)
+                    return np.array([q_, np.cross(w_, q_), w_])          # rows Q, S, W
+                Q0 = axes(tc)
+                om = np.array([0, 0, nn])
+                # chaser inertial state from the Hill state (QSW components, rotating frame)
+                rc = tc[:3] + Q0.T @ dq[:3]
+                vc = tc[3:] + Q0.T @ (dq[3:] + np.cross(om, dq[:3]))
+                chaser = _Orbit(list(rc) + list(vc), EPOCH, "cartesian", "EME2000", "Kepler")
+                hill0 = dq if orient == "QSW" else prop._mat6 @ dq
+                for frac in (0.2, 0.55, 1.3):
+                    t = frac * 2 * np.pi / nn
+                    d = EPOCH + timedelta(seconds=t)
+                    got = np.asarray(_Orbit(hill0, EPOCH, "cartesian", "Hill", prop).propagate(d), float)
+                    t1 = np.asarray(tgt.propagate(d).copy(form="cartesian"), float)
+                    c1 = np.asarray(chaser.propagate(d).copy(form="cartesian"), float)
+                    Q1 = axes(t1)
+                    rel = Q1 @ (c1[:3] - t1[:3])
+                    relv = Q1 @ (c1[3:] - t1[3:]) - np.cross(om, rel)
+                    want = np.concatenate([rel, relv])
+                    if orient == "TNW":
+                        want = prop._mat6 @ want
+                    sep = max(np.linalg.norm(dq[:3]), np.linalg.norm(rel))
+                    bound = 6 * sep ** 2 / sma * (1 + nn * t) + 1e-6
+                    err = float(np.linalg.norm(got[:3] - want[:3]))
+                    res["evaluations"] += 1
+                    clause("the Hill state is the relative motion of two Keplerian orbits about a circular target, to second order in the separation",
+                           err <= bound and float(np.linalg.norm(got[3:] - want[3:])) <= bound * nn * 3 + 1e-9, "cw/physical",
+                           f"{orient} sma {sma:.0f} after {frac} orbit: {err:.4g} m from the Keplerian relative motion (bound {bound:.3g} m)",
+                           {"sma": sma, "orientation": orient, "hill_state_qsw": dq.tolist(), "orbits": frac})
     res["nontrivial"] = sorted(set(res["nontrivial"]))
     with open(outp, "w") as fh:
         json.dump(res, fh)
